@@ -38,7 +38,7 @@ pub fn check(c: &Case) -> Checked {
         Ok(false) => {}
     }
     let mut vm_accepts = false;
-    for b in [Backend::Vm, Backend::Wasm] {
+    for &b in Backend::all() {
         let steps0 = mimium_lang::verif::total_steps();
         let ops0 = mimium_lang::verif::state_event_count();
         let _ = mimium_lang::verif::take_misc_events();
@@ -53,7 +53,9 @@ pub fn check(c: &Case) -> Checked {
                 let ich = s.io.input as usize;
                 let och = s.io.output as usize;
                 let mut inbuf = vec![0.0; ich];
-                for t in 0..c.n {
+                // inside the Miri interpreter a dsp call costs seconds: a handful of samples per case
+                let n = if cfg!(miri) { c.n.min(6) } else { c.n };
+                for t in 0..n {
                     for (k, v) in inbuf.iter_mut().enumerate() {
                         *v = inp(t, k);
                     }
@@ -363,10 +365,64 @@ pub fn meta(args: &Args) -> Value {
         "hang_is_violation": false,
         "n_quick": args.cases(600, 40000),
         "sanitizer": {"kind": "asan", "budget": 600, "slowdown": 6},
+        "miri": {"budget": 32, "slowdown": 60, "flags": "-Zmiri-disable-stacked-borrows", "deadline_s": 2400},
     })
 }
 
+/// The slice of the workload that runs inside the Miri interpreter (VM back end, few samples):
+/// generated programs with the danger features, near-miss mutations of them, and shipped sources
+/// drawn by the seed.
+fn run_miri(args: &Args, out: &mut Out) {
+    let files = corpus_files(&args.repo);
+    let total = args.cases(32, 32);
+    drive(
+        args,
+        out,
+        total,
+        |idx, rng| {
+            if idx % 4 == 3 && !files.is_empty() {
+                let f = &files[rng.below(files.len())];
+                let src = std::fs::read_to_string(f).ok()?;
+                for bad in ["Sampler", "sampler", "midi", "loadwav", "gen_sampler"] {
+                    if src.contains(bad) {
+                        return None;
+                    }
+                }
+                let name = f.file_name()?.to_string_lossy().to_string();
+                if args.q(&format!("corpus:{name}")) {
+                    return None;
+                }
+                return Some(Case {
+                    src,
+                    n: 4,
+                    input_seed: rng.next(),
+                    finite_inputs: true,
+                    prog: None,
+                    expect: None,
+                    scheduler: true,
+                    path: Some(f.to_string_lossy().to_string()),
+                    origin: Some(format!("corpus:{name}")),
+                    split: None,
+                });
+            }
+            let finite = rng.chance(1, 2);
+            let mut c = gen_case(args, rng, finite);
+            c.n = 6;
+            if idx % 4 == 2 {
+                c.src = near_miss(&c.src, rng);
+                c.prog = None;
+                c.origin = Some("nearmiss:generated".into());
+            }
+            Some(c)
+        },
+        exec,
+    );
+}
+
 pub fn run(args: &Args, out: &mut Out) {
+    if cfg!(miri) {
+        return run_miri(args, out);
+    }
     let files = corpus_files(&args.repo);
     let ncorpus = files.len();
     let nmut = if args.thorough() { ncorpus * 6 } else { ncorpus / 3 };
